@@ -147,3 +147,10 @@ func (v *VerifSnap) Buffered() int {
 
 // VerifSnapshotStreamLen is len(streamCh)+len(inCh) of a goroutine-driven snapshotter.
 func VerifSnapshotStreamLen(s *Snapshotter) int { return len(s.streamCh) + len(s.inCh) }
+
+// ResetRecoveryTimer makes the next failing tryAppend attempt a recovery compaction
+// again (as if snapshotErrorRecoveryInterval had elapsed since the last attempt).
+func (v *VerifSnap) ResetRecoveryTimer() { v.S.lastAttemptedCompaction = time.Time{} }
+
+// HasHandles reports s.buffered != nil and s.fh != nil.
+func (v *VerifSnap) HasHandles() (bool, bool) { return v.S.buffered != nil, v.S.fh != nil }
